@@ -5785,6 +5785,9 @@ sdef.is_pub = item->as.struct_def.is_pub;            /* Propagate public visibil
     } else if (main_func->return_type != TYPE_INT) {
         fprintf(stderr, "Error: 'main' function must return int\n");
         tc.has_error = true;
+    } else if (main_func->param_count != 0) {
+        fprintf(stderr, "Error: 'main' function must not take parameters\n");
+        tc.has_error = true;
     }
 
     return !tc.has_error && g_typecheck_error_diagnostics == diagnostics_at_start;
